@@ -63,18 +63,42 @@ def initial_state(scn, port):
     return None
 
 
+ROUND_TRIP_OPS = ('var_write', 'var_read', 'var_write_int32', 'var_read_int32', 'write_nickname', 'query_nickname',
+                  'motors_enable', 'motors_disable', 'motors_query_enabled')
+
+
+def _faulty(rec):
+    return bool(rec['faults_fired']) or any(q.get('plan') and (set(q['plan']) - {'at'}) for q in rec['requests'])
+
+
 def check(scn, hist):
     out = []
     if hist.hang:
         last = hist.ops[-1] if hist.ops else None
         out.append(V(PROP, 'hang', last['op'].get('m', '?') if last else '?', last['id'] if last else None, hist.hang))
         return out
+    clean_so_far = not scn.get('faults', {}).get('io') and not scn.get('faults', {}).get('reply') and \
+        scn.get('cfg', {}).get('mode', 'conforming') == 'conforming' and \
+        all(sp.get('kind', 'ebb') == 'ebb' and tuple(sp.get('fw', (3, 0, 2))) >= (3, 0, 2) and
+            not sp.get('open_fails') and sp.get('plugged', True) for sp in scn['world']['boards'])
     for i, rec in enumerate(hist.ops):
         op = rec['op']
+        if op['op'] == 'env' and op.get('what') not in ('idle', 'quiesce', 'set'):
+            clean_so_far = False
         if op['op'] != 'call':
             continue
         m = op['m']
         b, a = rec['before'], rec['after']
+        if _faulty(rec):
+            clean_so_far = False
+        if (clean_so_far and rec['exc'] is None and b['port'] is not None and b['err'] is not None and
+                m in ROUND_TRIP_OPS):
+            # nothing has gone wrong in this history (no injected fault, a conforming board of supported firmware
+            # that answered every request in time) and the object is connected: a round trip that is refused
+            # because of an error recorded out of nothing has not been faithful (wave 8)
+            out.append(V(PROP, 'roundtrip_refused', m, rec['id'], 'fault-free history, connected object, yet '
+                         '%s%r is refused with recorded error %r' % (m, tuple(op.get('a', [])), b['err'])))
+            continue
         if m == 'connect' and b['port'] is None and b['err'] is None and a['port'] is not None:
             port = a['port']
         elif b['port'] is None or b['err'] is not None:
@@ -102,7 +126,7 @@ def check(scn, hist):
             out.append(V(PROP, 'roundtrip_failed', m, oid, 'fault-free %s%r against a conforming board recorded %r'
                          % (m, tuple(args), a['err'])))
             continue
-        if not faulty and m != 'connect':
+        if not faulty and m not in ('connect', 'reboot', 'bootload'):      # a restart clears the board's state
             about_ram = m in ('var_write', 'var_write_int32')
             about_nick = m == 'write_nickname'
             about_motors = m in ('motors_enable', 'motors_disable', 'xy_move', 'abs_move', 'timed_pause')
@@ -399,6 +423,8 @@ def sweep_cells(tier):
     cells.append(['nick', 0])
     cells.append(['long', 0])
     cells.append(['long', 1])
+    cells.append(['past', 0])
+    cells.append(['past', 1])
     return cells
 
 
@@ -413,6 +439,27 @@ def sweep_expand(cell):
                 ops = mk_ops([{'op': 'new', 'obj': 0}, call(0, 'connect'), call(0, 'motors_query_enabled'),
                               call(0, 'motors_enable', [r1, r2]), call(0, 'motors_query_enabled')])
                 yield {'prop': PROP, 'world': world, 'ops': ops, 'faults': {}}
+    elif what == 'past':
+        # an object with a harmless past: requests made while it was not connected (x = 0: before the first
+        # connect() and between disconnect() and connect(); x = 1: after reboot()), then fault-free round trips
+        trips = [call(0, 'var_write_int32', [-2, 5]), call(0, 'var_read_int32', [5]), call(0, 'var_write', [7, 1]),
+                 call(0, 'var_read', [1]), call(0, 'write_nickname', ['Past']), call(0, 'query_nickname'),
+                 call(0, 'motors_enable', [0, 2]), call(0, 'motors_query_enabled'), call(0, 'motors_disable')]
+        pre = [call(0, 'var_read_int32', [0]), call(0, 'var_write_int32', [1, 0]), call(0, 'write_nickname', ['No']),
+               call(0, 'query_nickname'), call(0, 'motors_enable', [1, 1]), call(0, 'motors_query_enabled'),
+               call(0, 'command', ['EM,0,0']), call(0, 'query', ['QG'])]
+        if x == 0:
+            for k in range(len(pre)):
+                world = world_for(rng)
+                ops = [{'op': 'new', 'obj': 0}, dict(pre[k]), call(0, 'connect')] + [dict(o) for o in trips] + \
+                      [call(0, 'disconnect'), dict(pre[(k + 1) % len(pre)]), call(0, 'connect')] + [dict(o) for o in trips]
+                yield {'prop': PROP, 'world': world, 'ops': mk_ops(ops), 'faults': {}}
+        else:
+            for closer in ('reboot', 'bootload'):
+                world = world_for(rng)
+                ops = [{'op': 'new', 'obj': 0}, call(0, 'connect')] + [dict(o) for o in trips[:2]] + \
+                      [call(0, closer), {'op': 'env', 'what': 'quiesce'}, call(0, 'connect')] + [dict(o) for o in trips]
+                yield {'prop': PROP, 'world': world, 'ops': mk_ops(ops), 'faults': {}}
     elif what == 'long':
         # one object used for a long time: well over a thousand exchanges, with idle gaps of seconds to hours,
         # values written before unrelated requests and read back after them
